@@ -178,10 +178,11 @@ func newGSUB(table tables.Layout) (GSUB, error) {
 		for j, subtable := range subtables {
 			// start by resolving extension
 			if ext, isExt := subtable.(tables.ExtensionSubs); isExt {
-				subtables[j], err = ext.Resolve()
+				subtable, err = ext.Resolve()
 				if err != nil {
 					return GSUB{}, err
 				}
+				subtables[j] = subtable
 			}
 
 			// sanitize each lookup
@@ -233,10 +234,11 @@ func newGPOS(table tables.Layout) (GPOS, error) {
 		for j, subtable := range subtables {
 			// start by resolving extension
 			if ext, isExt := subtable.(tables.ExtensionPos); isExt {
-				subtables[j], err = ext.Resolve()
+				subtable, err = ext.Resolve()
 				if err != nil {
 					return GPOS{}, err
 				}
+				subtables[j] = subtable
 			}
 
 			// sanitize each lookup
